@@ -106,6 +106,34 @@ def classify(expr):
     return ("other", e)
 
 
+def error_codes():
+    """name → number of every MarginfiError (same parse as consts.py)"""
+    src = open(os.path.join(SRC, "errors.rs")).read()
+    m = re.search(r"pub enum MarginfiError\s*\{(.*?)\n\}", src, re.S)
+    body = re.sub(r"#\[msg\((?:[^()]|\([^()]*\))*\)\]", "", m.group(1), flags=re.S)
+    body = re.sub(r"//[^\n]*", "", body)
+    out, idx = {}, 0
+    for n in [n.strip() for n in body.split(",") if n.strip()]:
+        mm = re.fullmatch(r"([A-Za-z0-9_]+)\s*=\s*(\d+)", n)
+        if mm:
+            n, idx = mm.group(1), int(mm.group(2))
+        out[n] = 6000 + idx
+        idx += 1
+    return out
+
+
+def err_of(item, default, codes):
+    """the error a has_one / constraint item raises: `@ MarginfiError::X` → its number, `@ ErrorCode::…`/none → Anchor's default;
+    an error name that cannot be resolved gets 0 (no theorem about a code then holds)"""
+    m = re.search(r"@\s*([\w:]+)\s*$", item.strip())
+    if not m:
+        return default
+    name = m.group(1).split("::")[-1]
+    if m.group(1).startswith("MarginfiError"):
+        return codes.get(name, 0)
+    return 0
+
+
 def parse_structs():
     structs = []
     for root, _, files in os.walk(os.path.join(SRC, "instructions")):
@@ -218,8 +246,11 @@ def main():
     L.append("inductive Ty | signer | loader (z : Zc) | tokenAccount | mint | typedAccount | program | sysvar | systemAccount | unchecked | otherTy\n  deriving DecidableEq, Repr")
     L.append("inductive TagK | marginfi | kamino | drift | solend deriving DecidableEq, Repr")
     body = []
+    chk_body = []
+    codes = error_codes()
     for name, path, fs in structs:
         flines = []
+        chk_lines = []
         for fname, ty, attrs in fs:
             items = []
             for a in attrs:
@@ -230,13 +261,16 @@ def main():
             has_addr = any(re.match(r"address\s*=", it) for it in items)
             close = None
             has_one = []
+            has_one_err = []
             cons = []
+            cons_err = []
             tok_auth = None
             tok_mint = None
             for it in items:
                 m = re.match(r"has_one\s*=\s*(\w+)", it)
                 if m:
                     has_one.append(m.group(1))
+                    has_one_err.append(err_of(it, 2001, codes))
                 m = re.match(r"close\s*=\s*(\w+)", it)
                 if m:
                     close = m.group(1)
@@ -249,11 +283,15 @@ def main():
                 m = re.match(r"constraint\s*=\s*(.*)$", it, re.S)
                 if m:
                     expr = m.group(1)
+                    cons_err.append(err_of(it, 2003, codes))
                     # strip trailing "@ Error"
                     expr = re.sub(r"@\s*[\w:]+\s*$", "", expr.strip()).strip()
                     cons.append(classify(expr))
             cl = []
-            for c in cons:
+            for t, e in zip(has_one, has_one_err):
+                chk_lines.append("(.hasOne .f_%s %s, %d)" % (lean_ident(fname), (".f_" + lean_ident(t)) if t in field_names else ".f_unknown", e))
+            for ci, c in enumerate(cons):
+                n_before = len(cl)
                 if c[0] == "notPaused":
                     cl.append("(.notPaused .f_%s)" % lean_ident(c[1]))
                 elif c[0] == "signerAuth":
@@ -278,6 +316,8 @@ def main():
                 else:
                     others.append((name, fname, c[1]))
                     cl.append("(.other %d)" % (len(others) - 1))
+                for entry in cl[n_before:]:
+                    chk_lines.append("(.cons .f_%s %s, %d)" % (lean_ident(fname), entry, cons_err[ci]))
             def fl(names):
                 return "[" + ", ".join(".f_" + lean_ident(x) if x in field_names else ".f_unknown" for x in names) + "]"
             flines.append(
@@ -288,6 +328,7 @@ def main():
                    ("some .f_" + lean_ident(tok_mint)) if tok_mint and tok_mint in field_names else "none",
                    ", ".join(cl)))
         body.append("  | .%s => [\n%s ]" % (lean_ident(name), ",\n".join(flines)))
+        chk_body.append("  | .%s => [%s]" % (lean_ident(name), ", ".join(chk_lines)))
     L.append("inductive Fl\n  | " + "\n  | ".join("fl_" + f for f in sorted(flag_names)) + "\n  deriving DecidableEq, Repr\n")
     L.append("""inductive C
   | notPaused (group : F)
@@ -318,6 +359,18 @@ structure Field where
 """)
     L.append("def fields : S → List Field")
     L += body
+    L.append("")
+    L.append("""/-- one account check of a struct: a `has_one` or a classified `constraint = …` of a field -/
+inductive Chk
+  | hasOne (field target : F)
+  | cons (field : F) (c : C)
+  deriving DecidableEq, Repr
+
+/-- every `has_one` / `constraint` of a struct in Anchor's evaluation order (fields in declaration order; within a field
+    the `has_one`s, then the raw constraints, each in source order) with the error it raises: the number of the
+    `@ MarginfiError::X` attached to it, Anchor's ConstraintHasOne 2001 / ConstraintRaw 2003 when none is attached -/""")
+    L.append("def checks : S → List (Chk × Nat)")
+    L += chk_body
     L.append("")
     L.append("def allStructs : List S := [" + ", ".join("." + lean_ident(n) for n, _, _ in structs) + "]\n")
     # instruction map
